@@ -1,7 +1,7 @@
 SPECIFICATION SSpec
 CONSTANTS
   Calls = {1}
-  DocIds = {1, 2, 3, 4, 5}
+  DocIds = {1, 2, 3, 4, 5, 6}
   FailKinds = {"error", "malformed"}
   MaxFetches = 9
   MaxOpen = 2
@@ -13,6 +13,6 @@ CONSTANTS
   AuctionMiss = "fail"
   BidAccount = "lookup"
   Design = "resolve"
-  Family = "held"
+  Family = "callers"
 INVARIANTS Emit
 CHECK_DEADLOCK FALSE
